@@ -1,8 +1,54 @@
 """C09 — see DESIGN.md §4."""
 from ..spec import run_specs
+from ..roots import read_roots
+from . import c01
+from .. import structs as ST
+from ..ranges import Eval
 
 EXPLANATION = 'Narrowing discipline and sibling agreement of the primitive codecs: every narrowing cast in leb128::read / Reader defaults / ReaderOffset impls is a checked idiom; endianness polarity of all Endianity read/write functions agrees; size helpers and encoders share loop structure. Exactness over all byte strings is NOT decided.'
 
 
+def run_polarity(rep, g):
+    rep.rule('E-polarity', 'endianness polarity: in every Endianity::read_*/write_* the *_be_bytes call sits on the is_big_endian() true '
+             'edge and the *_le_bytes call on the false edge')
+    n = 0
+    for p, fn in sorted(g.fns.items()):
+        if not p.startswith('endianity::Endianity::') or fn.kind != 'AssocFn':
+            continue
+        be = [bi for bi, t in fn.calls() if 'ptr' not in t['f'] and (t['f'].get('name') or '').endswith('_be_bytes')]
+        le = [bi for bi, t in fn.calls() if 'ptr' not in t['f'] and (t['f'].get('name') or '').endswith('_le_bytes')]
+        if not be and not le:
+            continue
+        n += 1
+        ev = Eval(fn)
+        ok = bool(be) and bool(le)
+        for blocks, want in ((be, True), (le, False)):
+            for b in blocks:
+                # find the dominating switch on the is_big_endian() result
+                good = False
+                for d in fn.dom.get(b, ()):
+                    t = fn.term(d)
+                    if t['k'] != 'switch':
+                        continue
+                    dd = t['d']
+                    if dd[0] in ('c', 'm') and len(dd[1]) == 1:
+                        sd = fn.single_def(dd[1][0])
+                        if sd and sd[1] == 'term' and sd[2]['f'].get('name') == 'is_big_endian':
+                            for v, tgt in t['v'] + [[None, t['o']]]:
+                                if ST.dominated_by_edge(fn, d, tgt, b):
+                                    truth = (v != 0) if v is not None else ([x for x, _ in t['v']] == [0])
+                                    if truth == want:
+                                        good = True
+                ok = ok and good
+        rep.check('E-polarity', p, ok, 'be-bytes calls at %s, le-bytes calls at %s' % (be, le), fn.loc(),
+                  why='big-endian codec on the is_big_endian() true edge, little-endian on the false edge')
+    rep.floor('E-polarity', 'Endianity codec functions', n, 8)
+
+
 def run(rep, ctx):
+    g = ctx.g
     run_specs(rep, ctx, 'C09')
+    run_polarity(rep, g)
+    scope = {p for p in g.fns if p.startswith('leb128::') or p.startswith('read::reader::') or p.startswith('<u') and 'ReaderOffset' in p
+             or p.startswith('endianity::') or p.startswith('write::writer::')}
+    n = c01.run_N(rep, g, scope, scope_name='primitive codec (leb128, Reader defaults, ReaderOffset impls, Endianity, Writer defaults)', floor=8)
